@@ -82,6 +82,8 @@ def is_mut(a):
         for real, role in r['sets'].items():
             if d == real + '.add':
                 return 'add:' + role
+            if d in (real + '.discard', real + '.remove', real + '.pop', real + '.clear', real + '.difference_update', real + '.update'):
+                return '%s:%s' % (d.rsplit('.', 1)[1], role)
         if d == r['uploaded'] + '.callback':
             return 'uploaded.callback'
         if d == r['uploaded'] + '.errback':
@@ -515,6 +517,7 @@ RULES = [
 from ..selftest import M  # noqa: E402
 F = 'txtorcon/onion.py'
 MUTANTS = [
+    M('foreign-upload-unattempts-dir', F, "                    \"Upload to {} started\".format(args[3])\n                )\n", "                    \"Upload to {} started\".format(args[3])\n                )\n            else:\n                attempted_uploads.discard(args[3])\n", ['R15.1']),
     M('wait-skipped-when-fired', F, "    log.msg(\"{}: waiting for descriptor uploads.\".format(onion.hostname))\n    yield uploaded_d\n", "    if not uploaded_d.called:\n        yield uploaded_d\n", ['R15.5']),
     M('mode-not-handed-on', F, "        yield _add_ephemeral_service(config, onion, progress, version, None, await_all_uploads)", "        yield _add_ephemeral_service(config, onion, progress, version)", ['R15.8']),
     M('failed-last-never-completes', F, "                    elif await_all and confirmed_uploads:\n                        # this failure may have been the last\n                        # outstanding attempt\n                        if (len(failed_uploads) + len(confirmed_uploads)) == len(attempted_uploads):\n                            uploaded.callback(onion)", "                    elif await_all and confirmed_uploads:\n                        if (len(failed_uploads) + len(confirmed_uploads)) != len(attempted_uploads):\n                            uploaded.callback(onion)", ['R15.7']),
